@@ -154,5 +154,12 @@ def units(tier, seed):
                     {'property': PROP, 'float_tol': 1e-6}))
     out.append(Unit('C12/eigh, small gap and huge second-order coefficient', 'symx.props.c12', 'h_eigh_scales', {},
                     {'property': PROP, 'path_budget': 200, 'float_tol': 1e-5}))
+    # result buffers passed as out= and reused: stale higher-order content must not leak into the
+    # low-order coefficients (harnesses of C07/C08 with an arbitrary pre-filled buffer)
+    W = {'property': PROP, 'dirty_out': True, 'path_budget': 200}
+    out.append(Unit('C12/out= reused workspace/solve 2x2,k1/D4,P2', 'symx.props.c07', 'h_solve', {'n': 2, 'k': 1, 'kinds': 'UU', 'D': 4, 'P': 2}, dict(W)))
+    out.append(Unit('C12/out= reused workspace/qr 2x2/D3,P1', 'symx.props.c08', 'h_qr', {'M': 2, 'N': 2, 'D': 3, 'P': 1}, dict(W)))
+    out.append(Unit('C12/out= reused workspace/cholesky 2x2/D3,P1', 'symx.props.c08', 'h_cholesky', {'n': 2, 'D': 3, 'P': 1}, dict(W)))
+    out.append(Unit('C12/out= reused workspace/eigh 2x2/D3,P1', 'symx.props.c08', 'h_eigh', {'n': 2, 'D': 3, 'P': 1}, dict(W)))
     out.append(Unit('C12/comparisons/D3,P1', 'symx.props.c12', 'h_compare', {'D': 3, 'P': 1}, {'property': PROP, 'path_budget': 2000, 'validate_paths': 3}))
     return out
